@@ -181,14 +181,13 @@ PROPS["C06"] = dict(
 PROPS["C08"] = dict(
     prefix="c08_",
     overlays=[("file", "vk_c02.rs"), ("file", "vk_c08.rs")],
-    per_harness={r"c08_q_tileset_images": dict(mem_gb=12), r"c08_._tilemap_raster.*": dict(mem_gb=8), r"c08_t_tilemap_size_in_tiles": dict(timeout=2400)},
+    per_harness={r"c08_q_tileset_images": dict(mem_gb=12), r"c08_._tilemap_raster.*": dict(mem_gb=8), r"c08_t_tilemap_size_in_tiles": dict(timeout=2400),
+                 r"c08_q_tilemap_cel_through_write_cel": dict(mem_gb=12, recursion={r"file::AsepriteFile::write_cel": 2}, timeout=900)},
     bounds="geometry: canvas and tile size over all of u16 (tile size >= 1), cel offset over all tile-aligned i16 pairs, lookup "
            "coordinates over all of u32 x u32 (stored map 1x1), stored 2x2 map with coordinates < 300; rasteriser: 2x2 canvas, "
-           "tiles 1x1 / 2x1, stored map 2x1, symbolic ids, offsets, opacities, mode; tileset images: 2 tiles of 2x1",
-    outside="the route write_cel -> tilemap rasteriser (which opacity write_cel hands over): three formulations of a harness through "
-            "Cel::image on a tilemap cel exceeded 6-9 GB / 10 min even with both rasterisers replaced by recorders (drop glue of the palette "
-            "hash map is explored from somewhere on that route); the rasteriser unit itself takes layer and cel opacity as separate "
-            "arguments. Larger maps and tiles, grayscale / indexed tilesets (pixel conversion is C06), what the blend functions compute (C03)",
+           "tiles 1x1 / 2x1, stored map 2x1, symbolic ids, offsets, opacities, mode; tileset images: 2 tiles of 2x1; "
+           "the route Cel::image -> write_cel -> tilemap rasteriser on a 1x1 sprite (rasteriser replaced by a recorder of its arguments)",
+    outside="larger maps and tiles, grayscale / indexed tilesets (pixel conversion is C06), what the blend functions compute (C03)",
 )
 
 
